@@ -374,6 +374,25 @@ def observe_moved(case, prime, shared=False):
         return ("exc", type(e).__name__)
 
 
+def _stable(case, exp):
+    """the expected answer does not hinge on the state lying exactly on a boundary (which a rotation rounds away)"""
+    s0 = case["states"][0]
+    for key, eps in (("pos", 1e-6), ("orient", 1e-6), ("vel", 1e-6), ("vely", 1e-6)):
+        v = s0.get(key)
+        if v is None:
+            continue
+        for sgn in (-1, 1):
+            if key == "pos":
+                for ax in (0, 1):
+                    q = list(v)
+                    q[ax] = q[ax] + sgn * eps
+                    if expected_state(case, dict(s0, pos=q)) != exp:
+                        return False
+            elif expected_state(case, dict(s0, **{key: v + sgn * eps})) != exp:
+                return False
+    return True
+
+
 def oracle_hist(case):
     """membership must not depend on whether the goal region answered queries before it was moved"""
     a, b = observe_moved(case, True), observe_moved(case, False)
@@ -384,6 +403,15 @@ def oracle_hist(case):
                     f"{case['op']} answers {c} when the lanelet goal is built from the lanelets of a network that is moved "
                     f"with the same translate_rotate{case['hist']} before the goal region, and {b} when the goal owns its "
                     f"polygons: {brief(case)}")
+    if case["op"] == "is_reached" and b[0] == "b":
+        # moving the goal region and the state by the same rigid motion does not change membership (decided with a
+        # margin: near-boundary cases have no expected value)
+        exp = expected_state(case, case["states"][0])
+        if exp in (True, False) and b[1] != exp and _stable(case, exp):
+            kinds = "+".join(sorted({g["pos"]["k"] for g in case["goals"] if g.get("pos") is not None})) or "no position"
+            return (f"is_reached:history:membership changes under translate_rotate of region and state ({kinds})",
+                    f"is_reached answers {b[1]} after GoalRegion.translate_rotate{case['hist']} and the same motion of the "
+                    f"state, {exp} is the answer before the motion: {brief(case)}")
     if a != b:
         cls = case["states"][0]["cls"]
         kinds = "+".join(sorted({g["pos"]["k"] for g in case["goals"] if g.get("pos") is not None})) or "no position"
